@@ -60,9 +60,13 @@ async def run_schedule(config: dict, prefix: list[int], rng=None) -> Outcome:
         return f"{tag}:{counter['n']}"
 
     # pre-park (no writes happen: nodes are sleeping)
+    # "reuse_objects": the application keeps ONE Message object per actuator, changes its payload and sends it again
+    reuse = bool(config.get("reuse_objects"))
+    objects: dict[tuple, Message] = {}
     for n, c, t in config["parked"]:
         val = value("p")
-        await gateway.send(Message(n, c, 1, 0, t, val))
+        objects[(n, c, t)] = Message(n, c, 1, 0, t, val)
+        await gateway.send(objects[(n, c, t)])
         sent_log.append(((n, c, t), val))
     if transport.writes:
         out.problems.append(("pre-park-wrote", f"buffered set for a sleeping node was written at send time: {transport.writes}"))
@@ -80,8 +84,13 @@ async def run_schedule(config: dict, prefix: list[int], rng=None) -> Outcome:
             # that writes hands its line to the transport before it first suspends (call order = write order)
             entry = ((n, c, t), val)
             sent_log.append(entry)
+            if reuse and (n, c, t) in objects:
+                message = objects[(n, c, t)]
+                message.payload = val
+            else:
+                message = objects[(n, c, t)] = Message(n, c, 1, 0, t, val)
             try:
-                await gateway.send(Message(n, c, 1, 0, t, val), message_buffer=buffered)
+                await gateway.send(message, message_buffer=buffered)
             except Exception as exc:  # noqa: BLE001
                 sent_log.remove(entry)
                 out.sender_errors.append(exc_info(exc))
